@@ -16,6 +16,8 @@ func checkC09(e *RunEnv) *CheckResult {
 	for _, p := range allPaths {
 		base = append(base, Write(p, v1(p)))
 	}
+	// never-tracked files named like a tracked file plus ".tmp" (the name a careless "write, then rename" would use)
+	base = append(base, Write("d/x.tmp", "not tracked\n"), Write("g.tmp", "not tracked\n"))
 	seed1 := append(append([]Step{}, base...), Run("add", "d/x", "d/y", "d/s", "ad", "d.c", "a(b", "g", "d0", "big"), Run("commit", "-m", "c1"))
 	seed2 := append(append([]Step{}, seed1...), Write("d/x", v2("d/x")), Run("add", "d/x"), Write("d/x", "d/x v3\n"), Delete("d/y"), Rmdir("ad"), Run("rm", "g"), Write("n", v1("n")), Run("add", "n"))
 	spec := &Spec{
